@@ -815,3 +815,77 @@ func TestC17HTTPFaults(t *testing.T) {
 		})
 	})
 }
+
+// barrierRT lets every request of a round reach the transport before any of them is sent, so that all calls of the
+// round have built their request (and nothing has been read from any body yet) at the same moment.
+type barrierRT struct {
+	mu      sync.Mutex
+	want    int
+	arrived int
+	release chan struct{}
+}
+
+func (b *barrierRT) RoundTrip(r *http.Request) (*http.Response, error) {
+	b.mu.Lock()
+	b.arrived++
+	if b.arrived == b.want {
+		close(b.release)
+	}
+	ch := b.release
+	b.mu.Unlock()
+	select {
+	case <-ch:
+	case <-time.After(5 * time.Second):
+	}
+	return http.DefaultTransport.RoundTrip(r)
+}
+
+func TestC17HTTPConcurrentCalls(t *testing.T) {
+	rec := vt.For("C17")
+	rec.Rule("HTTP client, concurrent calls: 2-8 goroutines call one jsonrpc2.HTTPService at once with tokens of different sizes; a transport wrapper holds every request until all of the round have been built, then sends them; oracle: every message reaches the real HTTPServer exactly once and unmodified, and every call returns its own token; non-trivial = every case; distinct by the token sizes")
+	echo := &CountingEcho{seen: map[string]int{}}
+	inner := &jsonrpc2.HTTPServer{}
+	if err := inner.Server.Register("t_", echo); err != nil {
+		t.Fatal(err)
+	}
+	ts := httptest.NewServer(inner)
+	defer ts.Close()
+	round := 0
+	rapid.Check(t, func(rt *rapid.T) {
+		n := rapid.IntRange(2, 8).Draw(rt, "callers")
+		rtb := &barrierRT{want: n, release: make(chan struct{})}
+		hs := &jsonrpc2.HTTPService{Endpoint: ts.URL, HTTPClient: http.Client{Transport: rtb}}
+		round++
+		tokens := make([]string, n)
+		var sizes []int
+		for i := range tokens {
+			sz := rapid.SampledFrom([]int{0, 3, 40, 40, 900, 5000}).Draw(rt, "size")
+			sizes = append(sizes, sz)
+			tokens[i] = fmt.Sprintf("r%d-c%d-%s", round, i, strings.Repeat(string(rune('a'+i)), sz))
+		}
+		outs := make([]string, n)
+		errs := make([]error, n)
+		var wg sync.WaitGroup
+		for i := 0; i < n; i++ {
+			wg.Add(1)
+			go func() {
+				defer wg.Done()
+				ctx, cancel := context.WithTimeout(context.Background(), 30*time.Second)
+				defer cancel()
+				errs[i] = hs.Call(ctx, &outs[i], "t_echo", tokens[i])
+			}()
+		}
+		wg.Wait()
+		for i := 0; i < n; i++ {
+			echo.mu.Lock()
+			seen := echo.seen[tokens[i]]
+			echo.mu.Unlock()
+			if errs[i] != nil || outs[i] != tokens[i] || seen != 1 {
+				rt.Fatalf("%d concurrent calls on one HTTP service (token sizes %v): call %d returned err=%v result %.60q (own token %.60q); its message reached the server %d times", n, sizes, i, errs[i], outs[i], tokens[i], seen)
+			}
+		}
+		rec.Case(fmt.Sprintf("httpconc|%v", sizes), true, []string{"http-concurrent"}, func() interface{} {
+			return map[string]interface{}{"codec": "HTTP client, concurrent calls", "token_sizes": sizes}
+		})
+	})
+}
